@@ -1039,6 +1039,31 @@ class Tr:
                     return 'Ok (%s, tt)' % self.state_value(env) if st else 'Ok tt'
                 return result('None', 'none')
             return self.expr(s.value, env, result)
+        if isinstance(s, ast.Try) and not s.orelse and not s.finalbody and len(s.handlers) == 1 and len(s.body) == 1 \
+                and isinstance(s.body[0], ast.Return) and isinstance(s.body[0].value, ast.Call) \
+                and ast.unparse(s.body[0].value.func) == 'next' and len(s.body[0].value.args) == 1 \
+                and isinstance(s.handlers[0].type, ast.Name) and s.handlers[0].type.id == 'StopIteration' \
+                and len(s.handlers[0].body) == 1 and isinstance(s.handlers[0].body[0], ast.Raise):
+            # try: return next(x for x in L if c)  except StopIteration: raise E   - the first match, or E when there is none
+            g = s.body[0].value.args[0]
+            if not isinstance(g, ast.GeneratorExp) or len(g.generators) != 1 or len(g.generators[0].ifs) != 1 \
+                    or not isinstance(g.generators[0].target, ast.Name) or not (isinstance(g.elt, ast.Name) and g.elt.id == g.generators[0].target.id):
+                raise Unsupported('next(...) of this generator expression')
+            gen = g.generators[0]
+            on_none = self.block([s.handlers[0].body[0]], env, fall, loop)
+
+            def first_or(l, tl):
+                if not (isinstance(tl, tuple) and tl[0] == 'list'):
+                    raise Unsupported('next over a %s' % (tl,))
+                x = self.fresh(gen.target.id)
+                env2 = dict(env)
+                env2[gen.target.id] = (x, tl[1])
+                v = self.fresh('found')
+                st = self.state_names()
+                ok = 'Ok (%s, %s)' % (self.state_value(env), v) if st else 'Ok %s' % self.coerce(v, tl[1], self.ret, 'as the result')
+                return '(match find (fun %s => %s) %s with None => %s | Some %s => %s end)' % (
+                    x, self.pure_bool(gen.ifs[0], env2), l, on_none, v, ok)
+            return self.expr(gen.iter, env, first_or)
         if isinstance(s, ast.Raise):
             exc = s.exc
             name = exc.func.id if isinstance(exc, ast.Call) and isinstance(exc.func, ast.Name) else \
